@@ -82,7 +82,7 @@ def run(ctx):
             seen = []
             def hook(ins, args):
                 if ins in probes:
-                    seen.append(args[0]); return ('null',)
+                    seen.append(next((a_ for a_ in args if isinstance(a_, int)), args[0])); return ('null',)     # the descriptor among the arguments
                 return None
             try:
                 res = CE.run(f, [], gmem=dict(registry([])[1], **{'@next_backend_desc': c}), call_hook=hook)
@@ -103,7 +103,7 @@ def run(ctx):
         seq = []
         def hook2(ins, args):
             if ins in probes:
-                seq.append(args[0])
+                seq.append(next((a_ for a_ in args if isinstance(a_, int)), args[0]))
                 return ('g', '@some_instance', ()) if len(seq) == 1 else ('null',)
             return None
         try:
@@ -341,7 +341,7 @@ def run(ctx):
         objs, gm = registry(REG)
         def hook(ins, args):
             g_ = P.fns.get(ins.callee)
-            if g_ is not None and g_.order and g_.linkage == 'internal' and walks_registry(g_):
+            if g_ is not None and g_.order and g_.linkage == 'internal':          # the file-local finder (it may be handed the list head)
                 return CEp.run(g_, args, gmem=dict(gm), objs=objs, call_hook=lambda i2, a2: 0)['ret']
             return 0
         return CEp.run(pubf, [d_], gmem=dict(gm), objs=objs, call_hook=hook)['ret']
@@ -381,8 +381,9 @@ def run(ctx):
                 r.fail(f'path #{n}: NULL result', func=lf.name, sig='NULL returned before the end of the list', loc=lf.mod.src,
                        msg=f'the search returns NULL although the list is not exhausted (conditions on this path: {T[-3:]}): a live instance behind this position is reported unknown')
         else:
-            want = ('eq', f'*{p.ret}.idesc', 'arg0')
-            if want in T or ('eq', 'arg0', f'*{p.ret}.idesc') in T:
+            di_ = next((n_ for n_, (ty_, _pn) in enumerate(lf.params) if ty_ == 'i32'), 0)      # the descriptor among the parameters
+            want = ('eq', f'*{p.ret}.idesc', f'arg{di_}')
+            if want in T or ('eq', f'arg{di_}', f'*{p.ret}.idesc') in T:
                 r.ok(f'path #{n}: entry returned under idesc == desc', func=lf.name, loc=lf.mod.src)
             else:
                 r.fail(f'path #{n}: entry result', func=lf.name, sig='entry returned without idesc == desc', loc=lf.mod.src,
